@@ -355,7 +355,11 @@ func Run() error {
 					exitLock,
 					uploader)
 
-				btcChain := btc.NewBtcChain(listener, executor, mh, *config.GeneralChainConfig.Id)
+				startBlock, err := blockstore.GetStartBlock(*config.GeneralChainConfig.Id, config.StartBlock, config.GeneralChainConfig.LatestBlock, config.GeneralChainConfig.FreshStart)
+				if err != nil {
+					panic(err)
+				}
+				btcChain := btc.NewBtcChain(listener, executor, mh, *config.GeneralChainConfig.Id, startBlock)
 				domains[*config.GeneralChainConfig.Id] = btcChain
 
 			}
